@@ -5,7 +5,7 @@ import ast
 from typing import Dict, List, Optional, Set, Tuple
 
 from ..astutil import attr_chain, call_name, unparse, walk_shallow
-from ..cfg import LocalDefs
+from ..cfg import CFG, LocalDefs, path_text as cfg_path_text
 from ..index import AnalysisError, ClassInfo, FuncInfo
 from ..obsmodel import (ROOT_CALL, Interp, ObsClassModel, ObsModel, Tree, b_add, b_le, b_text, discrete_n, dnf_equiv,
                         dnf_text, path_text)
@@ -420,6 +420,62 @@ def _space_norm(e: ast.AST) -> str:
     return ".".join(ch)
 
 
+def r2_5(ctx: Ctx, om: ObsModel) -> None:
+    """observe() never raises on its own memory: an attribute of the observation that observe subscripts (`self.a[...]`) is never
+    bound to None - neither in __init__ nor in observe - unless every such subscript is behind a None test.  (An Optional cache reset
+    to None on one step and indexed on a later one raises TypeError out of env.step.)"""
+    ctx.rule("R2.5", "memory that observe() subscripts is never None: no `self.a = None` for an attribute read as `self.a[...]` without a "
+                     "None test")
+    n = 0
+    for m in _models(om):
+        fn = m.observe_fn
+        if fn is None or isinstance(fn.node, ast.Lambda):
+            continue
+        subs = {}
+        for x in ast.walk(fn.node):
+            if isinstance(x, ast.Subscript) and isinstance(x.ctx, ast.Load) and isinstance(x.value, ast.Attribute) \
+                    and isinstance(x.value.value, ast.Name) and x.value.value.id == "self":
+                subs.setdefault(x.value.attr, x)
+        for a, site in sorted(subs.items()):
+            none_stores = []
+            for f in [fn] + ([m.init_fn] if m.init_fn is not None else []):
+                for st in ast.walk(f.node):
+                    if isinstance(st, (ast.Assign, ast.AnnAssign)) and getattr(st, "value", None) is not None and isinstance(st.value, ast.Constant) \
+                            and st.value.value is None and any(isinstance(t, ast.Attribute) and t.attr == a and isinstance(t.value, ast.Name)
+                                                               and t.value.id == "self" for t in (st.targets if isinstance(st, ast.Assign) else [st.target])):
+                        none_stores.append((f, st))
+            if not none_stores:
+                continue
+            n += 1
+            g = CFG(fn.node)
+            reads = [nd for nd in g.nodes if nd.expr_root() is not None and any(
+                isinstance(x, ast.Subscript) and isinstance(x.value, ast.Attribute) and x.value.attr == a and unparse(x.value.value) == "self"
+                for x in ast.walk(nd.expr_root()))]
+
+            def not_none(e) -> bool:
+                if not (e.label and e.label[0] == "cond"):
+                    return False
+                t, pol = e.label[1], e.label[2]
+                if isinstance(t, ast.Attribute) and t.attr == a:
+                    return pol is True
+                if isinstance(t, ast.Compare) and len(t.ops) == 1 and isinstance(t.left, ast.Attribute) and t.left.attr == a \
+                        and isinstance(t.comparators[0], ast.Constant) and t.comparators[0].value is None:
+                    return pol == isinstance(t.ops[0], (ast.IsNot, ast.NotEq))
+                return False
+
+            p = g.path_avoiding(reads, not_none)
+            f0, st0 = none_stores[0]
+            ctx.record("R2.5", ctx.key(fn, f"self.{a} is never None where it is subscripted"), f0.loc(st0), p is None,
+                       f"every `self.{a}[...]` is behind a None test" if p is None else
+                       f"{f0.short} binds self.{a} to None and observe reads `self.{a}[...]` without testing it: TypeError out of observe() / env.step()",
+                       cfg_path_text(p) if p else None)
+    ctx.count("R2.5:subscripted memory attributes that can be None", n)
+    if n == 0:
+        ctx.ok("R2.5", "src/primaite/game/agent/observations::<package>::no subscripted observation memory is ever bound to None", "",
+               "no observation class binds an attribute that observe() subscripts to None")
+
+
+
 def check(ctx: Ctx) -> None:
     om = ObsModel(ctx.ix)
     ctx.count("E6:describe_state implementations", len(om.schema.impls()))
@@ -427,6 +483,7 @@ def check(ctx: Ctx) -> None:
     r2_2(ctx, om)
     r2_3(ctx, om)
     r2_4(ctx, om)
+    r2_5(ctx, om)
     ctx.count("E6:describe_state functions evaluated", len(om.schema.evaluated))
     ctx.count("E6:observation classes modelled", len(_models(om)))
 
